@@ -1365,16 +1365,32 @@ def run_e2e(ctx):
 
 
 def replay_e2e(ctx, rep):
-    """e2e replays re-run the whole (seeded) end-to-end stream"""
-    class Shim:
-        pass
+    """matrix scenarios are replayed on their own (one file, one Accept-Encoding value); history and
+    fault scenarios re-run the seeded end-to-end stream (same VERIF_SEED as recorded)"""
+    import random
     before = len(ctx.violations)
-    run_e2e(ctx)
+    if rep.get("scenario") == "matrix" and rep.get("file") and rep.get("config") in E2E_CONFS:
+        bd, err = e2e.build_server()
+        if bd is None:
+            print("server build failed:", (err or "")[-2000:])
+            return 1
+        name = rep["file"]
+        data = e2e_content(random.Random(ctx.seed), name[0], int(rep.get("size", 0)))
+        E = E2E(ctx)
+        ae = rep.get("accept_encoding", "gzip").encode("latin-1")
+        e2e_matrix_one(E, bd, rep["config"], [(name, data)], [ae], True)
+        EA_canon = lambda mo: " ".join([":".join(mo.split(" ")[0].split(":")[:2])] + mo.split(" ")[1:5] + mo.split(" ")[6:]) \
+            if len(mo.split(" ")) == 7 else mo
+        E.finish("e2e-matrix(lighttpd)", EA_canon)
+    else:
+        print("re-running the seeded end-to-end stream (VERIF_SEED=%d)" % ctx.seed)
+        run_e2e(ctx)
     if len(ctx.violations) > before:
         for sig, what, r, found in ctx.violations[before:]:
             print("violation:", what)
         print("VIOLATION property=%s replay=(replayed)" % ctx.pid)
         return 1
+    print("no violation reproduced")
     return 0
 
 
@@ -1418,8 +1434,8 @@ def run(ctx):
 
 
 def replay_line(ctx, rep):
-    line = rep["input"]
-    if not isinstance(line, str) or line.split(" ")[0] not in ("ae", "rs", "cache"):
+    line = rep.get("input")
+    if rep.get("scenario") or not isinstance(line, str) or line.split(" ")[0] not in ("ae", "rs", "cache", "name"):
         return replay_e2e(ctx, rep)
     exe, err = C.build_harness("h_deflate")
     o, rc, e = C.run_lines([exe], [line])
@@ -1427,7 +1443,7 @@ def replay_line(ctx, rep):
     print("input:", line[:2000])
     print("impl :", [canon(x) for x in o][:1], rc)
     print("model:", [canon(x) for x in m][:1])
-    orc = {"ae": oracle_ae, "rs": oracle_rs, "cache": oracle_cache}[line.split(" ")[0]]
+    orc = {"ae": oracle_ae, "rs": oracle_rs, "cache": oracle_cache, "name": oracle_names}[line.split(" ")[0]]
     v = orc(line, canon(o[0])) if o else "crash"
     if not v and line.startswith("rs ") and rep.get("correspondence", "").startswith("rs-revalidate"):
         v = oracle_reval(line, canon(o[0]))
